@@ -27,8 +27,10 @@ func (sc *SubnetConfig) getSubnetsVarint(seed []byte, weighted bool) ([]*phantom
 			return nil, fmt.Errorf("failed to seed random for weighted rand")
 		}
 
-		// nolint:staticcheck // here for backwards compatibility with clients
-		mrand.Seed(seedInt)
+		// A generator of our own, seeded like the package level generator used to be: it
+		// yields the same sequence (backwards compatibility with clients), but concurrent
+		// selections no longer re-seed and draw from one shared generator.
+		rs := mrand.New(mrand.NewSource(seedInt))
 
 		choices := make([]wr.Choice, 0, len(sc.WeightedSubnets))
 		for _, cjSubnet := range sc.WeightedSubnets {
@@ -40,7 +42,7 @@ func (sc *SubnetConfig) getSubnetsVarint(seed []byte, weighted bool) ([]*phantom
 			return nil, err
 		}
 
-		return parseSubnets(c.Pick().(*pb.PhantomSubnets))
+		return parseSubnets(c.PickSource(rs).(*pb.PhantomSubnets))
 
 	}
 
@@ -211,12 +213,13 @@ func SelectAddrFromSubnet(seed []byte, net1 *net.IPNet) (net.IP, error) {
 		return nil, fmt.Errorf("failed to create seed ")
 	}
 
-	// nolint:staticcheck // here for backwards compatibility with clients
-	mrand.Seed(seedInt)
+	// A generator of our own, seeded like the package level generator used to be (same
+	// sequence, for backwards compatibility with clients) so that concurrent selections do not
+	// interfere through the shared generator.
+	rs := mrand.New(mrand.NewSource(seedInt))
 	randBytes := make([]byte, addrLen/8)
 
-	// nolint:staticcheck // here for backwards compatibility with clients
-	_, err := mrand.Read(randBytes)
+	_, err := rs.Read(randBytes)
 	if err != nil {
 		return nil, err
 	}
